@@ -16,6 +16,20 @@ def getOut (a : Json) : Except String (Option Bool) := do
   | .ok v => return some (← v.getBool?)
   | .error _ => return none
 
+/-- the two intervals of a request: given directly (`i1`, `i2`) or as the extents of two
+    geometries along `axis` (`"time"` | `"freq"`) -/
+def getIntervals (a : Json) : Except String (Rat × Rat × Rat × Rat) := do
+  match fldOpt a "g1" with
+  | none =>
+    let (s1, e1) ← getPair (← fld a "i1")
+    let (s2, e2) ← getPair (← fld a "i2")
+    return (s1, e1, s2, e2)
+  | some j1 =>
+    let b1 ← geomBounds (← getGeom j1)
+    let b2 ← geomBounds (← getGeom (← fld a "g2"))
+    if (← fldStr a "axis") == "time" then return (b1.st, b1.en, b2.st, b2.en)
+    else return (b1.lo, b1.hi, b2.lo, b2.hi)
+
 def handle (op : String) (a : Json) : Except String Json := do
   -- binary64 variants: the same model function in the rounding arithmetic `rnd64`
   let rnd : Rat → Rat := if op.endsWith "64" then SE.Affinity.rnd64 else id
@@ -44,11 +58,10 @@ def handle (op : String) (a : Json) : Except String Json := do
     else geoJ (isInClipGeomR rnd g (← fldRat a "start") (← fldRat a "end") m)
   -- the property's demand on a result computed in floating point (see `C12_float_band`)
   | "float_ok" =>
-    let (s1, e1) ← getPair (← fld a "i1")
-    let (s2, e2) ← getPair (← fld a "i2")
+    let (s1, e1, s2, e2) ← getIntervals a
     return boolJ (floatOk (← fldRat a "u") s1 e1 s2 e2 (← fldOptRat a "abs") (← fldOptRat a "rel") (← getOut a))
   | "clip_float_ok" =>
-    let b ← getBounds (← fld a "bounds")
+    let b ← geomBounds (← getGeom (← fld a "g"))
     let m := (← fldOptRat a "min").getD defaultMinimumOverlap
     return boolJ (clipFloatOk (← fldRat a "u") b (← fldRat a "start") (← fldRat a "end") m (← getOut a))
   | "bounds" =>
